@@ -641,7 +641,7 @@ fn judge_layer2(run: &Run, fname: &str, order: &[usize], pool: &[PoolItem], got:
 pub fn main(tier: Option<&str>) {
     let run = Run::new("C05", "model_checking", tier);
     run.rule(
-        "layer 1: BFS, replay mode, on a real SwarmDriver: Call(cfg from quorum {One, N(2), Majority, All} x expected {none, A}) for up to 2(3) \
+        "layer 1: BFS, replay mode, on a real SwarmDriver: Call(cfg from quorum {One, N(2), Majority, All} x expected {none, A, B}) for up to 2(3) \
          concurrent callers, Found(peer, version) over 5 symmetric peers + the local node and versions {A,B} (duplicates allowed), the four \
          terminating events, Leave(caller); depth 6(8); peers are reduced by symmetry (one representative per answer signature + one fresh peer); \
          run once with opaque versions and once with mergeable transaction versions. layer 2: every subset (2-3) of a version pool per \
@@ -655,7 +655,7 @@ pub fn main(tier: Option<&str>) {
     let opaque = Arc::new(Menu {
         key: key.clone(),
         versions: vec![rec::record(key.clone(), bytes::Bytes::from_static(b"\x91\x01\xc4\x01A")), rec::record(key.clone(), bytes::Bytes::from_static(b"\x91\x01\xc4\x01B"))],
-        cfgs: vec![(Quorum::One, None), (Quorum::N(NonZeroUsize::new(2).unwrap()), None), (Quorum::Majority, None), (Quorum::All, None), (Quorum::One, Some(0)), (Quorum::N(NonZeroUsize::new(2).unwrap()), Some(0)), (Quorum::Majority, Some(0))],
+        cfgs: vec![(Quorum::One, None), (Quorum::N(NonZeroUsize::new(2).unwrap()), None), (Quorum::Majority, None), (Quorum::All, None), (Quorum::One, Some(0)), (Quorum::N(NonZeroUsize::new(2).unwrap()), Some(0)), (Quorum::Majority, Some(0)), (Quorum::One, Some(1)), (Quorum::N(NonZeroUsize::new(2).unwrap()), Some(1))],
         mergeable: false,
     });
     let t = [rec::tx(5, 1, 5), rec::tx(5, 2, 5)];
